@@ -795,6 +795,8 @@ class Gen(object):
                 op['b'] = kb
         if f == 'clip':
             op['lo'], op['hi'] = r.choice([(0, 1), (-1, 1), (-2.5, 0.5), (1, 3)])
+            if self.w.containers and 'containers' in self.p.groups and r.random() < 0.5:
+                op[r.choice(['lo_c', 'hi_c'])] = r.randrange(len(self.w.containers))
         if op['route'] == 'fn':
             if r.random() < 0.5:
                 op['sizing'] = r.choice(SIZINGS)
